@@ -214,4 +214,14 @@ def cmdMserInto (toks : List String) : String :=
       s!"tag={(tag d.ty).toHex} fits={if fits d v then 1 else 0} fx={res}"
   | _, _, _ => "bad-op"
 
+/-- `tagvisit <full tag hex> <bytes hex>`: the recording visitor and `singular` on an arbitrary tag -/
+def cmdTagVisit (tag bytes : Bytes) : String :=
+  let (evs, rest, err) := match visit recorder tag [] bytes with
+    | .ok (evs, rest) => (showEvs evs, rest.length, "-")
+    | .error e => ("?", 0, e.code)
+  let sing := match Tag.singular tag tag 2048 with
+    | .ok b => if b then "1" else "0"
+    | .error e => e.code
+  s!"events={evs} rest={rest} err={err} singular={sing}"
+
 end BinlogVerif.Mser.Proto
